@@ -43,8 +43,11 @@ CHECKS = {
         "text": ('Proved: requoting is idempotent for the four requoters (all strings); dot-segment removal is idempotent; the parser '
                  'inverts printing (split_url (unsplit_result parts) = parts on re-parse-safe components, F14/F15 refuted witnesses); '
                  "canonical components re-encode to themselves; the constructor's output is canonical; URL-level fixed point "
-                 'str(URL(str(u))) = str(u) with identical components for inputs with no authority or a plain ASCII host name. PARTIAL: '
-                 'authorities with userinfo, IDNA/IP hosts or ports at URL level are checked on the implementation by re-parsing the '
+                 'str(URL(str(u))) = str(u) with identical components for inputs with no authority or a plain ASCII host name, and '
+                 '(C03_fixed_point_userinfo_port) for every accepted input whose authority is [user[:password]@]name[:port] with a plain '
+                 'ASCII host name: same string, scheme, raw user, raw password, raw host, port (a dropped default port is the same '
+                 'port), path, query, fragment; F30 as an explicit hypothesis. PARTIAL: '
+                 'IDNA/IP hosts and URLs reached through modifiers are checked on the implementation by re-parsing the '
                  'string form of every generated URL (two-stage programs); known findings F14 F15 F17 F30 excluded.'),
         "design_ref": "DESIGN.md section 7 C03",
     },
